@@ -52,11 +52,13 @@ def r1(ctx):
             if kk[0] != "cmp":
                 continue
             a, b2, op = kk[2], kk[3], kk[1]
-            if "len(arg:src)" in a and b2 == "const:4":
+            if "len(arg:src)" in a and P.const_of_key(b2) == 4:
                 have4 = (op == "<" and not tv) or (op == ">=" and tv)
             elif "MAX_MESSAGE_SIZE" in b2 and "from_be_bytes" in a:
-                sized = (op == "<=" and tv) or (op == ">" and not tv) or (op == "<" and tv)
-            elif "len(arg:src)" in a and b2 not in ("const:4",):
+                sized = (op == "<=" and tv) or (op == ">" and not tv)
+            elif "MAX_MESSAGE_SIZE" in a and "from_be_bytes" in b2:
+                sized = (op == ">=" and tv) or (op == "<" and not tv)
+            elif "len(arg:src)" in a and P.const_of_key(b2) is None:
                 avail = (op == "<" and not tv) or (op == ">=" and tv)
         ctx.check(bool(have4) and bool(sized) and bool(avail), "C09.R1", DEC, "parse-guarded[%s]" % P.short(p.ret)[:24],
                   "parse path passed: len>=4 %s, frame_len<=MAX %s, len>=4+frame_len %s" % (have4, sized, avail), d.sp)
@@ -67,9 +69,25 @@ def r1(ctx):
     if n_parse < 2:
         raise mir.AnchorMissing("decode: expected the parse on >=2 paths, found %d" % n_parse)
     # the availability bound is 4 + frame_len and the slice parsed is [4 .. 4+frame_len]
-    adds = [s for _, _, s in d.statements() if s["k"] == "assign" and s["r"][0] == "bin" and s["r"][1] in ("Add", "AddWithOverflow")]
-    okadd = [s for s in adds if any(o[0] == "const" and o[1].get("val") == 4 for o in (s["r"][2], s["r"][3]))]
-    ctx.check(len(okadd) >= 2, "C09.R1", DEC, "bounds-are-4+frame_len", "%d computations of 4 + frame_len (availability test, slice end, advance)" % len(okadd), d.sp)
+    def is_frame_end(op):
+        """operand = 4 + frame_len (possibly through a shared local)"""
+        for o in trace(d, op, through_calls=False):
+            if o.kind == "expr" and o.data[0] == "bin" and o.data[1] in ("Add", "AddWithOverflow"):
+                ops = [o.data[2], o.data[3]]
+                has4 = any(x[0] == "const" and x[1].get("val") == 4 for x in ops)
+                haslen = any(x[0] != "const" and any(y.kind == "call" and y.data["f"].get("name") == "from_be_bytes" for y in leaves(d, x, expand_calls=False)) for x in ops)
+                if has4 and haslen:
+                    return True
+        return False
+    uses = {}
+    for c in comparisons(d):
+        if any(o.kind == "call" and o.data["f"].get("name") == "len" for o in trace(d, c["a"], through_calls=False)) and c["b"][0] != "const":
+            uses["availability-test"] = is_frame_end(c["b"])
+    for bi, t in d.calls():
+        if t["f"].get("name") == "advance":
+            uses["advance"] = is_frame_end(t["a"][1])
+    ctx.check(uses.get("availability-test") is True and uses.get("advance") is True, "C09.R1", DEC, "bounds-are-4+frame_len",
+              "availability test and advance use 4 + frame_len: %s" % uses, d.sp)
     # the bytes handed to the parser are exactly the declared frame: src[4 .. 4 + frame_len]
     fb = [(bi, t) for bi, t in d.calls() if t["f"].get("name") == "from_bytes"]
     okslice = False
@@ -362,7 +380,7 @@ def r4(ctx):
     ctx.check(len(fb) == 1 and bool(call_outcomes(h, [bi for bi, t in h.calls() if t is fb[0]][0]).get("Err")), "C09.R4", h.path, "decode-error-propagated", "postcard error is returned with ?", h.sp)
     cr = f.body("sync::Capability::from_raw")
     ctx.touch(cr)
-    ti = [bi for bi, t in cr.calls() if t["f"].get("name") == "try_into"]
+    ti = [bi for bi, t in cr.calls() if t["f"].get("name") in ("try_into", "try_from", "try_from_primitive")]
     ctx.check(len(ti) == 1 and bool(call_outcomes(cr, ti[0]).get("Err")), "C09.R4", cr.path, "unknown-kind-is-error", "an unknown capability kind byte returns Err", cr.sp)
     ctx.floor("C09.R4", 6)
 
